@@ -108,6 +108,38 @@ fn gen_uri(rng: &mut Rng, malformed: bool) -> Gen {
 
 pub fn run(args: &Args) {
     let mut agg = Aggregate::new();
+    // the clock: value_now must be value_at(the current whole second), early and late within a second
+    run_cases(&mut agg, args, "clock", args.n(6, 24), |i, rng, _model| {
+        let mut o = CaseOutcome::default();
+        let period = if i % 2 == 0 { 1u64 } else { 30 };
+        let digits = if period == 1 { 9 } else { 6 };
+        let secret = base32::encode(base32::Alphabet::Rfc4648 { padding: false }, &rng.bytes(20));
+        let uri = format!("otpauth://totp/clock?secret={}&period={}&digits={}", secret, period, digits);
+        o.input = format!("(clock period {} late-in-second {})", period, i % 4 >= 2);
+        let Ok(t) = uri.parse::<TOTP>() else { o.violation = Some("well-formed URI rejected".into()); return o; };
+        let late = i % 4 >= 2;
+        for _try in 0..8 {
+            // wait for the wanted part of a second
+            loop {
+                let ms = std::time::SystemTime::now().duration_since(std::time::UNIX_EPOCH).unwrap().subsec_millis();
+                if (late && (600..900).contains(&ms)) || (!late && (50..350).contains(&ms)) { break; }
+                std::thread::sleep(std::time::Duration::from_millis(5));
+            }
+            let before = std::time::SystemTime::now().duration_since(std::time::UNIX_EPOCH).unwrap().as_secs();
+            let now = t.value_now();
+            let after = std::time::SystemTime::now().duration_since(std::time::UNIX_EPOCH).unwrap().as_secs();
+            if before != after { continue; }
+            let Ok(now) = now else { o.violation = Some("value_now failed".into()); return o; };
+            let at = t.value_at(before);
+            o.nontrivial = true;
+            o.tags.push(format!("clock:{}", if late { "late" } else { "early" }));
+            if now.code != at.code || now.valid_for != at.valid_for {
+                o.violation = Some(format!("value_now() at Unix time {} ({} in the second, period {}) gives {} valid {:?}; value_at({}) gives {} valid {:?}", before, if late { "late" } else { "early" }, period, now.code, now.valid_for, before, at.code, at.valid_for));
+            }
+            return o;
+        }
+        o
+    });
     for (stream, malformed, n) in [("uris", false, args.n(2_000, 100_000)), ("malformed", true, args.n(1_000, 40_000))] {
         run_cases(&mut agg, args, stream, n, |_i, rng, model| {
             let g = gen_uri(rng, malformed);
@@ -210,7 +242,7 @@ pub fn run(args: &Args) {
     write_report(
         args,
         &agg,
-        "otpauth URIs generated from (secret 0..64 bytes, algorithm, period in {1,30,60,86400,random,>2^32}, digits 0..19 mostly 1..9, label/issuer with reserved and non-ASCII characters percent-encoded, parameter order shuffled, unknown and repeated parameters, padding dropped) x 3..10 times from {0, 59, period boundaries +-1, 2^31, 2^32, u64::MAX - period, u64::MAX, random}; malformed stream: wrong scheme, missing secret, bad base32, non-numeric/overflowing/zero period, bad digits, unknown algorithm, unparsable text, digits >= 20; non-trivial = parsed successfully (or any malformed case); distinct = distinct URI text",
+        "stream clock: value_now() called early (50-350 ms) and late (600-900 ms) within a wall-clock second, periods 1 and 30, compared with value_at(that second); otpauth URIs generated from (secret 0..64 bytes, algorithm, period in {1,30,60,86400,random,>2^32}, digits 0..19 mostly 1..9, label/issuer with reserved and non-ASCII characters percent-encoded, parameter order shuffled, unknown and repeated parameters, padding dropped) x 3..10 times from {0, 59, period boundaries +-1, 2^31, 2^32, u64::MAX - period, u64::MAX, random}; malformed stream: wrong scheme, missing secret, bad base32, non-numeric/overflowing/zero period, bad digits, unknown algorithm, unparsable text, digits >= 20; non-trivial = parsed successfully (or any malformed case); distinct = distinct URI text",
         serde_json::json!({}),
     );
 }
